@@ -15,6 +15,7 @@ mod errs;
 mod session;
 mod jsonrt;
 mod serde_rt;
+mod varapi;
 mod conv;
 mod synctrial;
 mod cli;
@@ -39,6 +40,7 @@ fn runner(engine: &str) -> Runner {
         "errs" => errs::run_case,
         "json" => jsonrt::run_case,
         "serde" => serde_rt::run_case,
+        "varapi" => varapi::run_case,
         "conv" => conv::run_case,
         "cli" => cli::run_case,
         _ => die(&format!("unknown engine {}", engine)),
